@@ -12,6 +12,7 @@
   entries onto itself, and translates every block (bit tree) the symbol coder uses as a whole.
 -/
 import XzVerif.Lemmas.LzmaRoundtrip
+import XzVerif.Lemmas.RangeCoderRename
 import Mathlib.Tactic.IntervalCases
 
 namespace XzVerif.LzmaExec
@@ -399,5 +400,216 @@ theorem ctxMap_inj (p : Props) (k : Nat) (hp : PropsOk p) (a b : Nat) (h : ctxMa
     rw [ctxMap_lit p k a (by omega), ctxMap_lit p k b t] at h
     have := litMap_inj p.lc p.lp k (a - 1846) (b - 1846) hlclp (by omega)
     omega
+
+/-! ### closed forms of the bit expressions -/
+
+theorem posState_eq (pos pb : Nat) : pos &&& ((1 <<< pb) - 1) = pos % 2 ^ pb := by
+  rw [Nat.one_shiftLeft, Nat.and_two_pow_sub_one_eq_mod]
+
+/-- `x & (2^a − 2^b)` keeps the bits `b ≤ i < a` -/
+theorem and_mask (x a b : Nat) (h : b ≤ a) : x &&& (2 ^ a - 2 ^ b) = x % 2 ^ a / 2 ^ b * 2 ^ b := by
+  have e : 2 ^ a - 2 ^ b = (2 ^ (a - b) - 1) * 2 ^ b := by
+    have : 2 ^ a = 2 ^ (a - b) * 2 ^ b := by rw [← pow_add]; congr 1; omega
+    rw [this, Nat.sub_mul, Nat.one_mul]
+  apply Nat.eq_of_testBit_eq
+  intro i
+  rw [Nat.testBit_and, e, Nat.testBit_mul_two_pow, Nat.testBit_two_pow_sub_one, Nat.testBit_mul_two_pow,
+    Nat.testBit_div_two_pow, Nat.testBit_mod_two_pow]
+  by_cases h1 : b ≤ i
+  · have e2 : i - b + b = i := by omega
+    rw [e2]
+    by_cases h2 : i < a
+    · have : i - b < a - b := by omega
+      simp [h1, h2, this]
+    · have : ¬ i - b < a - b := by omega
+      simp [h1, h2, this]
+  · simp [h1]
+
+/-- number of the literal coder: position bits above the high bits of the previous byte -/
+def litIdx (lc lp pos prev : Nat) : Nat := pos % 2 ^ lp * 2 ^ lc + prev / 2 ^ (8 - lc)
+
+theorem literalSubcoder_eq (lc lp pos prev : Nat) (h : lc + lp ≤ 4) (hprev : prev < 256) :
+    literalSubcoder lc lp pos prev = 768 * litIdx lc lp pos prev := by
+  unfold literalSubcoder literalMask litIdx
+  have e1 : (0x100 : Nat) <<< lp = 2 ^ (8 + lp) := by rw [Nat.shiftLeft_eq, pow_add]; norm_num
+  have e2 : (0x100 : Nat) >>> lc = 2 ^ (8 - lc) := by
+    rw [Nat.shiftRight_eq_div_pow]
+    have : (0x100 : Nat) = 2 ^ (8 - lc) * 2 ^ lc := by
+      rw [← pow_add]
+      have : 8 - lc + lc = 8 := by omega
+      rw [this]; norm_num
+    rw [this, Nat.mul_div_cancel _ (Nat.pow_pos (by norm_num))]
+  rw [e1, e2, and_mask _ _ _ (by omega), Nat.shiftLeft_eq, Nat.shiftLeft_eq]
+  have hlc : lc ≤ 4 := by omega
+  have hlp : lp ≤ 4 := by omega
+  interval_cases lc <;> interval_cases lp <;> simp only [Nat.reducePow, Nat.reduceAdd, Nat.reduceSub] at h ⊢ <;> omega
+
+/-! ### every block the symbol coder uses is translated as a whole -/
+
+section blocks
+variable (p : Props) (k pos pos' : Nat) (hp : PropsOk p) (hk : pos' % 16 = (pos + k) % 16)
+include hp hk
+
+theorem ctxMap_isMatch (st : Nat) (hst : st < 12) :
+    ctxMap p k (P_IS_MATCH + st * POS_STATES_MAX + (pos &&& ((1 <<< p.pb) - 1)))
+      = P_IS_MATCH + st * POS_STATES_MAX + (pos' &&& ((1 <<< p.pb) - 1)) := by
+  rw [posState_eq, posState_eq]
+  have h1 := shLow_pos p.pb k pos pos' hp.2 hk
+  have hx : pos % 2 ^ p.pb < 16 := by
+    have := posState_lt pos p.pb hp.2; rwa [posState_eq] at this
+  generalize pos % 2 ^ p.pb = x at h1 hx
+  have hlt : 0 + st * 16 + x < 192 := by omega
+  simp only [ctxMap, P_IS_MATCH, POS_STATES_MAX, hlt, if_true]
+  have e1 : (0 + st * 16 + x) / 16 = st := by omega
+  have e2 : (0 + st * 16 + x) % 16 = x := by omega
+  rw [e1, e2, h1]; omega
+
+theorem ctxMap_isRep0Long (st : Nat) (hst : st < 12) :
+    ctxMap p k (P_IS_REP0_LONG + st * POS_STATES_MAX + (pos &&& ((1 <<< p.pb) - 1)))
+      = P_IS_REP0_LONG + st * POS_STATES_MAX + (pos' &&& ((1 <<< p.pb) - 1)) := by
+  rw [posState_eq, posState_eq]
+  have h1 := shLow_pos p.pb k pos pos' hp.2 hk
+  have hx : pos % 2 ^ p.pb < 16 := by
+    have := posState_lt pos p.pb hp.2; rwa [posState_eq] at this
+  generalize pos % 2 ^ p.pb = x at h1 hx
+  have a1 : ¬ 240 + st * 16 + x < 192 := by omega
+  have a2 : ¬ 240 + st * 16 + x < 240 := by omega
+  have a3 : 240 + st * 16 + x < 432 := by omega
+  simp only [ctxMap, P_IS_REP0_LONG, POS_STATES_MAX, a1, a2, a3, if_true, if_false]
+  have e1 : (240 + st * 16 + x - 240) / 16 = st := by omega
+  have e2 : (240 + st * 16 + x - 240) % 16 = x := by omega
+  rw [e1, e2, h1]; omega
+
+omit hk in
+/-- is_rep, is_rep0, is_rep1, is_rep2, dist_slot, pos_special: untouched -/
+theorem ctxMap_id (c : Nat) (h : (192 ≤ c ∧ c < 240) ∨ (432 ≤ c ∧ c < 802)) : ctxMap p k c = c := by
+  obtain ⟨_, h2, _, h4, _⟩ := ctxMap_seg p k c hp
+  rcases h with h | h
+  · exact h2 h.1 h.2
+  · exact h4 h.1 h.2
+
+omit hp hk in
+theorem ctxMap_align (m : Nat) (h : m < 16) : ctxMap p k (P_POS_ALIGN + m) = P_POS_ALIGN + alignPerm m := by
+  have a1 : ¬ 802 + m < 192 := by omega
+  have a2 : ¬ 802 + m < 240 := by omega
+  have a3 : ¬ 802 + m < 432 := by omega
+  have a4 : ¬ 802 + m < 802 := by omega
+  have a5 : 802 + m < 818 := by omega
+  simp only [ctxMap, P_POS_ALIGN, a1, a2, a3, a4, a5, if_true, if_false, Nat.add_sub_cancel_left]
+
+omit hp hk in
+theorem ctxMap_lenCoder (L : Nat) (hL : L = P_MATCH_LEN ∨ L = P_REP_LEN) (o : Nat) (ho : o < 514) :
+    ctxMap p k (L + o) = L + lenMap p.pb k o := by
+  rcases hL with rfl | rfl
+  · have a1 : ¬ 818 + o < 192 := by omega
+    have a2 : ¬ 818 + o < 240 := by omega
+    have a3 : ¬ 818 + o < 432 := by omega
+    have a4 : ¬ 818 + o < 802 := by omega
+    have a5 : ¬ 818 + o < 818 := by omega
+    have a6 : 818 + o < 1332 := by omega
+    simp only [ctxMap, P_MATCH_LEN, a1, a2, a3, a4, a5, a6, if_true, if_false, Nat.add_sub_cancel_left]
+  · have a1 : ¬ 1332 + o < 192 := by omega
+    have a2 : ¬ 1332 + o < 240 := by omega
+    have a3 : ¬ 1332 + o < 432 := by omega
+    have a4 : ¬ 1332 + o < 802 := by omega
+    have a5 : ¬ 1332 + o < 818 := by omega
+    have a6 : ¬ 1332 + o < 1332 := by omega
+    have a7 : 1332 + o < 1846 := by omega
+    simp only [ctxMap, P_REP_LEN, a1, a2, a3, a4, a5, a6, a7, if_true, if_false, Nat.add_sub_cancel_left]
+
+/-- the three parts of a length coder -/
+theorem ctxMap_len (L : Nat) (hL : L = P_MATCH_LEN ∨ L = P_REP_LEN) :
+    ctxMap p k (L + LEN_CHOICE) = L + LEN_CHOICE ∧ ctxMap p k (L + LEN_CHOICE2) = L + LEN_CHOICE2 ∧
+    (∀ j, j < 8 → ctxMap p k (L + LEN_LOW + (pos &&& ((1 <<< p.pb) - 1)) * LEN_LOW_SYMBOLS + j)
+        = L + LEN_LOW + (pos' &&& ((1 <<< p.pb) - 1)) * LEN_LOW_SYMBOLS + j) ∧
+    (∀ j, j < 8 → ctxMap p k (L + LEN_MID + (pos &&& ((1 <<< p.pb) - 1)) * LEN_MID_SYMBOLS + j)
+        = L + LEN_MID + (pos' &&& ((1 <<< p.pb) - 1)) * LEN_MID_SYMBOLS + j) ∧
+    (∀ j, j < 256 → ctxMap p k (L + LEN_HIGH + j) = L + LEN_HIGH + j) := by
+  rw [posState_eq, posState_eq]
+  have h1 := shLow_pos p.pb k pos pos' hp.2 hk
+  have hx : pos % 2 ^ p.pb < 16 := by
+    have := posState_lt pos p.pb hp.2; rwa [posState_eq] at this
+  generalize pos % 2 ^ p.pb = x at h1 hx
+  simp only [LEN_CHOICE, LEN_CHOICE2, LEN_LOW, LEN_MID, LEN_HIGH, LEN_LOW_SYMBOLS, LEN_MID_SYMBOLS]
+  refine ⟨?_, ?_, ?_, ?_, ?_⟩
+  · rw [ctxMap_lenCoder p k L hL 0 (by omega)]; simp [lenMap]
+  · rw [ctxMap_lenCoder p k L hL 1 (by omega)]; simp [lenMap]
+  · intro j hj
+    have : L + 2 + x * 8 + j = L + (2 + x * 8 + j) := by omega
+    rw [this, ctxMap_lenCoder p k L hL _ (by omega)]
+    have a1 : ¬ 2 + x * 8 + j < 2 := by omega
+    have a2 : 2 + x * 8 + j < 258 := by omega
+    have e1 : (2 + x * 8 + j - 2) / 128 = 0 := by omega
+    have e2 : (2 + x * 8 + j - 2) % 128 / 8 = x := by omega
+    have e3 : (2 + x * 8 + j - 2) % 8 = j := by omega
+    simp only [lenMap, a1, a2, if_true, if_false, e1, e2, e3, h1]; omega
+  · intro j hj
+    have : L + 130 + x * 8 + j = L + (130 + x * 8 + j) := by omega
+    rw [this, ctxMap_lenCoder p k L hL _ (by omega)]
+    have a1 : ¬ 130 + x * 8 + j < 2 := by omega
+    have a2 : 130 + x * 8 + j < 258 := by omega
+    have e1 : (130 + x * 8 + j - 2) / 128 = 1 := by omega
+    have e2 : (130 + x * 8 + j - 2) % 128 / 8 = x := by omega
+    have e3 : (130 + x * 8 + j - 2) % 8 = j := by omega
+    simp only [lenMap, a1, a2, if_true, if_false, e1, e2, e3, h1]; omega
+  · intro j hj
+    have : L + 258 + j = L + (258 + j) := by omega
+    rw [this, ctxMap_lenCoder p k L hL _ (by omega)]
+    have a1 : ¬ 258 + j < 2 := by omega
+    have a2 : ¬ 258 + j < 258 := by omega
+    simp only [lenMap, a1, a2, if_false]
+
+/-- a literal coder (0x300 variables) -/
+theorem ctxMap_literal (prev : Nat) (hprev : prev < 256) (j : Nat) (hj : j < 768) :
+    ctxMap p k (P_LITERAL + literalSubcoder p.lc p.lp pos prev + j)
+      = P_LITERAL + literalSubcoder p.lc p.lp pos' prev + j := by
+  rw [literalSubcoder_eq _ _ _ _ hp.1 hprev, literalSubcoder_eq _ _ _ _ hp.1 hprev]
+  rw [ctxMap_lit p k _ (by simp only [P_LITERAL]; omega)]
+  obtain ⟨hlclp, _⟩ := hp
+  have hlc : p.lc ≤ 4 := by omega
+  have hlp : p.lp ≤ 4 := by omega
+  simp only [P_LITERAL, litMap, litIdx, shLow]
+  generalize p.lc = lc at *
+  generalize p.lp = lp at *
+  interval_cases lc <;> interval_cases lp <;> simp only [Nat.reducePow, Nat.reduceSub] at hlclp ⊢ <;> omega
+
+end blocks
+
+/-! ### renaming of probability arrays -/
+
+/-- `ps2` is `ps1` seen through the renaming `f` (total version: also outside the array) -/
+def RenamedT (f : Nat → Nat) (ps1 ps2 : Probs) : Prop :=
+  ps1.size = ps2.size ∧ ∀ c, (f c < ps2.size ↔ c < ps1.size) ∧ ps2.getD (f c) 0 = ps1.getD c 0
+
+theorem RenamedT.toRenamed {f : Nat → Nat} {ps1 ps2 : Probs} (h : RenamedT f ps1 ps2) : Renamed f ps1 ps2 :=
+  fun c hc => ⟨(h.2 c).1.mpr hc, (h.2 c).2⟩
+
+/-- fresh probabilities look the same through every `ctxMap` -/
+theorem renamedT_init (p : Props) (k : Nat) (hp : PropsOk p) : RenamedT (ctxMap p k) (initProbs p) (initProbs p) := by
+  refine ⟨rfl, fun c => ?_⟩
+  have hs : (initProbs p).size = probsSize p.lc p.lp := by simp [initProbs]
+  have hlt := ctxMap_lt p k c hp
+  refine ⟨by rw [hs]; exact hlt, ?_⟩
+  by_cases hc : c < probsSize p.lc p.lp
+  · have hc' := hlt.mpr hc
+    simp [initProbs, Array.getD_eq_getD_getElem?, hc, hc']
+  · have hc' : ¬ ctxMap p k c < probsSize p.lc p.lp := fun h => hc (hlt.mp h)
+    simp [initProbs, Array.getD_eq_getD_getElem?, hc, hc']
+
+theorem renamedT_set {f : Nat → Nat} (hinj : ∀ a b, f a = f b → a = b) {ps1 ps2 : Probs} (h : RenamedT f ps1 ps2)
+    (c v : Nat) : RenamedT f (ps1.setIfInBounds c v) (ps2.setIfInBounds (f c) v) := by
+  refine ⟨by simp [h.1], fun c' => ?_⟩
+  obtain ⟨h1, h2⟩ := h.2 c'
+  refine ⟨by simpa using h1, ?_⟩
+  rw [getD_set, getD_set]
+  by_cases hcc : c = c'
+  · subst hcc
+    simp only [true_and]
+    by_cases hc : c < ps1.size
+    · simp [hc, h1.mpr hc]
+    · have : ¬ f c < ps2.size := fun hh => hc (h1.mp hh)
+      simp [hc, this, h2]
+  · have : ¬ f c = f c' := fun hh => hcc (hinj _ _ hh)
+    simp [hcc, this, h2]
 
 end XzVerif.LzmaExec
